@@ -17,11 +17,11 @@ package entrypoint
 //@                                 amt_has == old(amt_has) && amt_val == old(amt_val) && cnt_has == old(cnt_has) && cnt_val == old(cnt_val) && out_n == old(out_n)
 
 // The transfer in closed form (C02, C11).
-//@ macro theOp() = ptrto(adapt_op, "*types.OrbiterPacket")
+//@ macro theOp() = ptrto(adapt_op, "*github.com/noble-assets/orbiter/v2/types.OrbiterPacket")
 //@ macro pktAmount(p) = parseInt(pktData(p).Amount)
 //@ macro sweepLedger(b, D) = moveIf(bal(b, core.ModuleAddress, D) > 0, b, core.ModuleAddress, dustAddr(), D, bal(b, core.ModuleAddress, D))
 //@ macro creditLedger(b, p) = move(b, escrowAddr(p.DestinationPort, p.DestinationChannel), core.ModuleAddress, pktDenom(p), pktAmount(p))
-//@ macro xferEffect(p, pl) = dispatchEffect(creditLedger(sweepLedger(old(bank), pktDenom(p)), p), pktAmount(p), pktDenom(p), pl)
+//@ macro xferLedger(p, pl) = dispatchLedger(creditLedger(sweepLedger(old(bank), pktDenom(p)), p), pktAmount(p), pktDenom(p), pl)
 //   x is a recipient of some fee entry of one of the (at most two) actions
 //@ macro feeRcptAt(x, fs, j) = j < len(fs) && x == decodeAddr(fs[j].Recipient)
 //@ macro feeRcpt(x, a) = feeRcptAt(x, actFs(a), 0) || feeRcptAt(x, actFs(a), 1) || feeRcptAt(x, actFs(a), 2) || feeRcptAt(x, actFs(a), 3) || feeRcptAt(x, actFs(a), 4)
@@ -59,7 +59,10 @@ package entrypoint
 //   The clauses after the first spell out what the statement lists: supply changes only by the CCTP
 //   burn; balances in other denominations do not change; accounts other than the escrow, the orbiter,
 //   the dust collector, the fee recipients and the route's sink do not change.
-//@   ensures[C02] ackSuccess(ack) && forOrb(packet) ==> theOp() != nil && theOp().Payload != nil && payloadOK(theOp().Payload) && xferEffect(packet, theOp().Payload)
+//@   ensures[C02] ackSuccess(ack) && forOrb(packet) ==> theOp() != nil && theOp().Payload != nil && payloadOK(theOp().Payload)
+//@   ensures[C02] ackSuccess(ack) && forOrb(packet) ==> plN(theOp().Payload) <= 2 && actsOKN(pktAmount(packet), theOp().Payload.PreActions, plN(theOp().Payload)) && fwdAttrKnown(plAttr(theOp().Payload)) && plOut(pktAmount(packet), theOp().Payload) > 0
+//@   ensures[C02] ackSuccess(ack) && forOrb(packet) ==> wrapped_bank0 == sweepLedger(old(bank), pktDenom(packet)) && wrapped_bank == creditLedger(sweepLedger(old(bank), pktDenom(packet)), packet)
+//@   ensures[C02] ackSuccess(ack) && forOrb(packet) ==> bank == xferLedger(packet, theOp().Payload)
 //@   ensures[C02] ackSuccess(ack) && forOrb(packet) ==> forall d string :: supply(bank, d) == supply(old(bank), d) - ite(isCCTPAttr(plAttr(theOp().Payload)) && d == pktDenom(packet), plOut(pktAmount(packet), theOp().Payload), 0)
 //@   ensures[C02] ackSuccess(ack) && forOrb(packet) ==> forall x Addr, d string :: d != pktDenom(packet) ==> bal(bank, x, d) == bal(old(bank), x, d)
 //@   ensures[C02] ackSuccess(ack) && forOrb(packet) ==> forall x Addr :: x != escrowAddr(packet.DestinationPort, packet.DestinationChannel) && x != core.ModuleAddress && x != dustAddr() &&
